@@ -25,6 +25,7 @@ struct ftail {
 	const char *label;
 	int kind;
 	const char *val2;	/* TL_VALUE: the second value */
+	unsigned int vmask;	/* values (bit = index) the tail is used with; 0 = all */
 };
 struct fpart {
 	const char *txt;
@@ -38,53 +39,55 @@ struct family {
 	struct ftail tail[12];
 	struct fpart pre[6];
 	struct fpart suf[4];
-	int prefix_in_key;
+	int keyparts;		/* which coordinates make the class key: 1 value, 2 tail, 4 prefix */
 };
 
 static const struct family fams[] = {
 	{"tails", 7, {NULL},
 	 {{"2012-03-04", "date"}, {"2012-03-04T12:30", "date-HM"}, {"2012-03-04T12:30:00", "date-HMS"}, {"12:30:00", "HMS"}, {"12:30", "HM"}, {NULL, NULL}},
-	 {{"", "none", TL_COPY, NULL}, {"T12:xx", "T-hour-colon-letters", TL_COPY, NULL}, {"T12:75", "T-hour-colon-75", TL_COPY, NULL},
-	  {":xx", "colon-letters", TL_COPY, NULL}, {":99", "colon-99", TL_COPY, NULL}, {".x", "dot-letter", TL_COPY, NULL}, {".", "dot", TL_COPY, NULL},
-	  {"+05", "zone-plus-hour-only", TL_ZONE, NULL}, {"-03", "zone-minus-hour-only", TL_ZONE, NULL}, {"+05:7", "zone-short-minute", TL_ZONE, NULL},
-	  {"+05:00", "zone-full", TL_ZONE, NULL}, {NULL, NULL, 0, NULL}},
+	 {{"", "none", TL_COPY, NULL, 0}, {"T12:xx", "T-hour-colon-letters", TL_COPY, NULL, 0}, {"T12:75", "T-hour-colon-75", TL_COPY, NULL, 0},
+	  {":xx", "colon-letters", TL_COPY, NULL, 0}, {":99", "colon-99", TL_COPY, NULL, 0}, {".x", "dot-letter", TL_COPY, NULL, 0}, {".", "dot", TL_COPY, NULL, 0},
+	  /* zone-like tails: hour only (no colon, so no second time-like text); the full form only behind date+time
+	   * (behind a bare date or time `05:00` is a time of its own for the tools, as `+05:7` would be everywhere) */
+	  {"+05", "zone-plus-hour-only", TL_ZONE, NULL, 0}, {"-03", "zone-minus-hour-only", TL_ZONE, NULL, 0},
+	  {"+05:00", "zone-full", TL_ZONE, NULL, 6}, {NULL, NULL, 0, NULL, 0}},
 	 {{"", "line-start"}, {"see ", "blank"}, {"xx", "letters"}, {NULL, NULL}},
-	 {{"", "end"}, {" rest", "blank"}, {NULL, NULL}}, 0},
+	 {{"", "end"}, {" rest", "blank"}, {NULL, NULL}}, 2},
 	{"padded-dmy", 7, {"-i", "%d/%m/%Y", "-f", "%F", NULL},
 	 {{"4/03/2012", "1-digit-day"}, {"14/03/2012", "2-digit-day"}, {"04/03/2012", "zero-padded-day"}, {"4/3/2012", "1-digit-day-and-month"}, {NULL, NULL}},
-	 {{"", "none", TL_COPY, NULL}, {NULL, NULL, 0, NULL}},
+	 {{"", "none", TL_COPY, NULL, 0}, {NULL, NULL, 0, NULL, 0}},
 	 {{"", "line-start"}, {"on ", "blank"}, {"on", "letters"}, {"item 9 ", "digit-blank"}, {NULL, NULL}},
-	 {{"", "end"}, {" x", "blank"}, {NULL, NULL}}, 1},
+	 {{"", "end"}, {" x", "blank"}, {NULL, NULL}}, 4},
 	{"padded-dth", 7, {"-i", "%dth %B %Y", "-f", "%F", NULL},
 	 {{"4th May 1987", "1-digit-day"}, {"14th May 1987", "2-digit-day"}, {NULL, NULL}},
-	 {{"", "none", TL_COPY, NULL}, {NULL, NULL, 0, NULL}},
+	 {{"", "none", TL_COPY, NULL, 0}, {NULL, NULL, 0, NULL, 0}},
 	 {{"", "line-start"}, {"on ", "blank"}, {"on", "letters"}, {"item 9 ", "digit-blank"}, {NULL, NULL}},
-	 {{"", "end"}, {" x", "blank"}, {NULL, NULL}}, 1},
+	 {{"", "end"}, {" x", "blank"}, {NULL, NULL}}, 4},
 	{"padded-hm", 1, {"-i", "%H:%M", "-f", "%T", NULL},
 	 {{"7:05", "1-digit-hour"}, {"07:05", "zero-padded-hour"}, {"17:05", "2-digit-hour"}, {NULL, NULL}},
-	 {{"", "none", TL_COPY, NULL}, {NULL, NULL, 0, NULL}},
+	 {{"", "none", TL_COPY, NULL, 0}, {NULL, NULL, 0, NULL, 0}},
 	 {{"", "line-start"}, {"at ", "blank"}, {"at", "letters"}, {NULL, NULL}},
-	 {{"", "end"}, {" sharp", "blank"}, {NULL, NULL}}, 1},
+	 {{"", "end"}, {" sharp", "blank"}, {NULL, NULL}}, 4},
 	{"epoch", 7, {"-i", "%s", "-f", "%FT%T", NULL},
 	 {{"5", "1-digit"}, {"86400", "5-digits"}, {"999999999", "9-digits"}, {"1330560000", "10-digits"}, {"10413792000", "11-digits"}, {NULL, NULL}},
-	 {{"", "none", TL_COPY, NULL}, {NULL, NULL, 0, NULL}},
+	 {{"", "none", TL_COPY, NULL, 0}, {NULL, NULL, 0, NULL, 0}},
 	 {{"", "line-start"}, {"t=", "equals-sign"}, {"t ", "blank"}, {NULL, NULL}},
-	 {{"", "end"}, {",", "comma"}, {" x", "blank"}, {NULL, NULL}}, 0},
+	 {{"", "end"}, {",", "comma"}, {" x", "blank"}, {NULL, NULL}}, 1},
 	{"epoch-comma", 7, {"-i", "%s,", "-f", "%FT%T,", NULL},
 	 {{"86400,", "5-digits"}, {"999999999,", "9-digits"}, {"1330560000,", "10-digits"}, {"10413792000,", "11-digits"}, {NULL, NULL}},
-	 {{"", "none", TL_COPY, NULL}, {NULL, NULL, 0, NULL}},
+	 {{"", "none", TL_COPY, NULL, 0}, {NULL, NULL, 0, NULL, 0}},
 	 {{"", "line-start"}, {"t=", "equals-sign"}, {"t ", "blank"}, {NULL, NULL}},
-	 {{"", "end"}, {" x", "blank"}, {NULL, NULL}}, 0},
+	 {{"", "end"}, {" x", "blank"}, {NULL, NULL}}, 1},
 	{"compact", 7, {"-i", "%Y%m%d", "-f", "%F", NULL},
 	 {{"20120304", "8-digits"}, {NULL, NULL}},
-	 {{"", "none", TL_COPY, NULL}, {NULL, NULL, 0, NULL}},
+	 {{"", "none", TL_COPY, NULL, 0}, {NULL, NULL, 0, NULL, 0}},
 	 {{"", "line-start"}, {"x ", "letters-blank"}, {"x 1 ", "digit-run-before"}, {"1 ", "digit-run-at-line-start"}, {"a1b ", "digit-inside-word-before"}, {NULL, NULL}},
-	 {{"", "end"}, {" 5", "digit-run-after"}, {" x", "blank"}, {NULL, NULL}}, 1},
+	 {{"", "end"}, {" 5", "digit-run-after"}, {" x", "blank"}, {NULL, NULL}}, 4},
 	{"two-formats", 7, {"-i", "%Y%m%d", "-i", "%d/%m/%Y", "-f", "%F", NULL},
 	 {{"20120304", "compact-first"}, {"05/03/2012", "slashed-first"}, {NULL, NULL}},
-	 {{" and ", "then-compact", TL_VALUE, "20120306"}, {" and ", "then-slashed", TL_VALUE, "07/03/2012"}, {NULL, NULL, 0, NULL}},
+	 {{" and ", "then-compact", TL_VALUE, "20120306", 0}, {" and ", "then-slashed", TL_VALUE, "07/03/2012", 0}, {NULL, NULL, 0, NULL, 0}},
 	 {{"", "line-start"}, {"x ", "letters-blank"}, {NULL, NULL}},
-	 {{"", "end"}, {" x", "blank"}, {NULL, NULL}}, 0},
+	 {{"", "end"}, {" x", "blank"}, {NULL, NULL}}, 3},
 };
 #define NFAM	((int)(sizeof(fams) / sizeof(*fams)))
 
@@ -199,6 +202,21 @@ fam_cmd(char *cmd, size_t csz, const struct family *f, const char *ein)
 	}
 }
 
+static void
+fam_key(char *key, size_t ksz, const struct family *f, const char *kind, int vi, int ti, int pi)
+{
+	size_t k = (size_t)snprintf(key, ksz, "tool=%s family=%s: %s |", TOOLNAME, f->name, kind);
+	if (f->keyparts & 1) {
+		k += (size_t)snprintf(key + k, ksz - k, " value=%s", f->val[vi].label);
+	}
+	if (f->keyparts & 2) {
+		k += (size_t)snprintf(key + k, ksz - k, " tail=%s", f->tail[ti].label);
+	}
+	if (f->keyparts & 4) {
+		snprintf(key + k, ksz - k, " prefix=%s", f->pre[pi].label);
+	}
+}
+
 /* one stream of a family; returns 1 if it was judged */
 static int
 fam_stream(int fi, int vi, int ti, int pi, int si, int nl, int maxcuts, int replay, const int *rchunks, int nrch)
@@ -252,9 +270,7 @@ fam_stream(int fi, int vi, int ti, int pi, int si, int nl, int maxcuts, int repl
 		if (lb) {
 			esc(eb, sizeof(eb), expb, lb);
 		}
-		snprintf(key, sizeof(key), "tool=%s family=%s: %s | value=%s tail=%s%s%s", TOOLNAME, f->name,
-			 ref.signaled ? "killed" : !ref.exited || ref.status ? "exit status" : "output differs",
-			 f->val[vi].label, t->label, f->prefix_in_key ? " prefix=" : "", f->prefix_in_key ? f->pre[pi].label : "");
+		fam_key(key, sizeof(key), f, ref.signaled ? "killed" : !ref.exited || ref.status ? "exit status" : "output differs", vi, ti, pi);
 		ex_viol(key, (double)(vi * 100 + ti), cas, cmd, "\"%s\" came out as \"%s\" (%s); expected \"%s\"%s%s%s (argument mode turns %s into %s)", ein, eo, fs_ending(&ref), ea,
 			lb ? " or, with the zone as part of the value, \"" : "", eb, lb ? "\"" : "", f->val[vi].txt, rv);
 	}
@@ -288,7 +304,7 @@ fam_stream(int fi, int vi, int ti, int pi, int si, int nl, int maxcuts, int repl
 					char er[800], cs2[160];
 					esc(er, sizeof(er), r.out, r.outlen < 190 ? r.outlen : 190);
 					snprintf(cs2, sizeof(cs2), "%s %d %d %d", cas, chunks[0], chunks[1], nch > 2 ? chunks[2] : 0);
-					snprintf(key, sizeof(key), "tool=%s family=%s: composition-dependent output | value=%s tail=%s", TOOLNAME, f->name, f->val[vi].label, t->label);
+					fam_key(key, sizeof(key), f, "composition-dependent output", vi, ti, pi);
 					ex_viol(key, (double)(vi * 100 + ti), cs2, cmd, "\"%s\" delivered with cuts at %d%s: \"%s\" (%s), in one read \"%s\"", ein, c1, c2 > c1 ? " and further" : "", er, fs_ending(&r), eo);
 				}
 				fs_free(&r);
@@ -317,13 +333,17 @@ fam_all(void)
 		}
 		for (int vi = 0; f->val[vi].txt; vi++) {
 			for (int ti = 0; f->tail[ti].txt; ti++) {
+				if (f->tail[ti].vmask && !(f->tail[ti].vmask & (1U << vi))) {
+					continue;
+				}
 				for (int pi = 0; f->pre[pi].txt; pi++) {
 					for (int si = 0; f->suf[si].txt; si++) {
 						for (int nl = 1; nl >= 0; nl--) {
 							if (!ex_mine(id++) || ex.expired) {
 								continue;
 							}
-							fam_stream(fi, vi, ti, pi, si, nl, maxcuts, 0, NULL, 0);
+							/* quick: the compositions only for the newline-terminated variant */
+							fam_stream(fi, vi, ti, pi, si, nl, (nl || ex.thorough) ? maxcuts : 0, 0, NULL, 0);
 							if (ex_want_sample()) {
 								ex_sample("%s family %s: prefix '%s' value '%s' tail '%s' suffix '%s'%s", TOOLNAME, f->name, f->pre[pi].txt, f->val[vi].txt,
 									  f->tail[ti].txt, f->suf[si].txt, nl ? "" : " (no final newline)");
